@@ -191,7 +191,7 @@ package invocation
 //@ func (*Token).validate
 //@   requires t != nil
 //@   ensures [C10] wf: result == nil ==> wfInv(t)
-//@   ensures [C07] sealable: result == nil ==> sealablei(t)
+//@   ensures [C07,C10] sealable: result == nil ==> sealablei(t)
 //@   ensures [C10,C07] complete: wfInv(t) && sealablei(t) ==> result == nil
 //@   assigns [C20] nothing
 //@
